@@ -21,7 +21,7 @@ def swarm(t, profile="exec"):
         gates.append("Rx")
     cfg = {
         "profile": profile,
-        "n": t.weighted([(1, 1), (2, 3), (3, 3), (4, 2)]),
+        "n": t.weighted([(1, 1), (2, 3), (3, 3), (4, 2), (5, 0.7), (6, 0.5)]),
         "budget": t.randint(3, 25),
         "max_depth": t.randint(1, 5),
         "loop_counts": [c for c in (0, 1, 2, 3) if on(0.7)] or [2],
@@ -84,27 +84,34 @@ class Gen:
         self.regs = {rname: list(range(n))}
         self.singles = {}
         if t.chance(cfg["p_maps"]):
-            for _ in range(t.randint(1, 3)):
+            last = None
+            for _ in range(t.randint(1, 4)):
                 nm = t.choice(NAMES)
                 if nm in used:
                     continue
-                src = t.choice(sorted(self.regs))
+                # prefer chains: an alias of the most recent alias
+                src = last if (last in self.regs and t.chance(0.6)) else t.choice(sorted(self.regs))
                 base = self.regs[src]
                 x = t.random()
-                if x < 0.25:
+                if x < 0.2:
                     prog["maps"].append({"name": nm, "src": src, "kind": "whole"})
                     self.regs[nm] = list(base)
-                elif x < 0.5:
+                    last = nm
+                elif x < 0.4:
                     i = t.randrange(len(base))
                     prog["maps"].append({"name": nm, "src": src, "kind": "single", "idx": self.int_ref(i)})
                     self.singles[nm] = base[i]
                 else:
                     a = t.randrange(len(base))
+                    if len(base) >= 3 and t.chance(0.5):
+                        a = t.randint(1, len(base) - 2)  # non-zero start, at least two left
                     b = t.randint(a + 1, len(base))
-                    st = t.choice([1, 1, 2])
+                    if t.chance(0.4):
+                        b = len(base)
+                    st = t.choice([1, 1, 2, 2, 3])
                     form = t.random()
                     start, stop, step = self.int_ref(a), self.int_ref(b), None
-                    if form < 0.35:
+                    if form < 0.5:
                         step = self.int_ref(st)
                     elif form < 0.5:
                         start, a = None, 0
@@ -119,6 +126,7 @@ class Gen:
                         continue
                     prog["maps"].append({"name": nm, "src": src, "kind": "slice", "start": start, "stop": stop, "step": step})
                     self.regs[nm] = sub
+                    last = nm
                 used.add(nm)
         self.used_names = used
         return prog
@@ -490,7 +498,7 @@ class Gen:
         else:
             items = []
             for _ in range(t.randint(1, 2)):
-                items += self.bracket(info, 1)
+                items += self.outside_group(info, 1, False) if t.chance(0.5) else self.bracket(info, 1)
             body = {"k": "seq", "body": items}
         for p in pnames:
             if info[p]["kind"] == "i" and not info[p].get("lens"):
